@@ -159,7 +159,13 @@ def worker(cfg, tier):
 
     W, rate, dmin, dmax, payload, skip = cfg["W"], cfg["rate"], cfg["min"], cfg["max"], cfg["payload"], cfg["skip"]
     obs = []
-    upd, gs0, tn0, ext, n, S = _build_site(W, rate, dmin, dmax, payload, skip)
+    upd, gs0, tn0, ext_code, n, S = _build_site(W, rate, dmin, dmax, payload, skip)
+    # the oracle's own bound, independent of TrainableDist.window: a sender with period 1/rate has at most ceil(rate*(max-min)) send times in
+    # the half-open interval (ts_start - d, ts_start - min] whose messages arrived under `min` but not under d <= max
+    ext = int(-((-Fraction(rate) * (Fraction(dmax) - Fraction(dmin))) // 1))
+    obs.append(Ob("window_extension_covers_the_trainable_range", "unsat" if ext_code >= ext else "sat", 0, cfg, detail=f"window()={ext_code} needed={ext}",
+                  trivial=True, replayed=True, key="zoh-window-extension",
+                  what=f"TrainableDist.window({rate}) = {ext_code} extra slots, but up to {ext} messages of a regular sender can be in flight within [min, max]"))
     it = jx.Interp()
     tr = jx.Traced(lambda g_, t_: upd(g_, t_), gs0, tn0)
     flat = tr.sym_inputs(it, "in")
@@ -509,8 +515,10 @@ def configs(tier):
     cfgs = []
     Ws = [1, 2] if tier == "quick" else [1, 2, 3]
     # (rate, min, max): dyadic so that counterexamples replay exactly in float32; ext = ceil(rate*(max-min))
-    rmm = [(64, 0.0, 0.03125), (64, 0.015625, 0.0625)] if tier == "quick" else \
-        [(64, 0.0, 0.03125), (64, 0.015625, 0.0625), (128, 0.0, 0.03125), (32, 0.0, 0.03125), (100, 0.001, 0.0235)]
+    # the third and later triples have a fractional rate*(max-min) (1.25, 1.75, 2.25, ...)
+    rmm = [(64, 0.0, 0.03125), (64, 0.015625, 0.0625), (64, 0.0, 0.01953125)] if tier == "quick" else \
+        [(64, 0.0, 0.03125), (64, 0.015625, 0.0625), (64, 0.0, 0.01953125), (64, 0.0078125, 0.03515625), (128, 0.0, 0.03125), (32, 0.0, 0.03125), (100, 0.001, 0.0235),
+         (32, 0.015625, 0.0234375)]
     for W in Ws:
         for rate, mn, mx in rmm:
             for skip in (False, True):
